@@ -1006,7 +1006,7 @@ func checkMemoKeys(c *core.Ctx, l *core.Ledger) {
 				}
 			})
 			if fills {
-				memos = append(memos, memo{lk, fld.Name()})
+				memos = append(memos, memo{lk, core.FieldName(fld)})
 			}
 		})
 		for _, m := range memos {
